@@ -229,11 +229,46 @@ def job_atoms(item):
 
 # ------------------------------------------------------------------ Q3 acceptance (enumeration of shapes)
 
-def sig(exc):
+def nested_reassign(prog):
+    """does the program contain an if nested inside a branch of another if whose branches assign a variable of its own
+    conditions?  (the mechanism behind the known refusal: the inner _old copy is conditioned by the outer branch)"""
+    from vlib.lang import If, Simult, cond_symbols
+
+    def assigned(stmts):
+        out = set()
+        for s_ in stmts:
+            if isinstance(s_, If):
+                for b in s_.branches + ([s_.else_branch] if s_.else_branch else []):
+                    out |= assigned(b)
+            elif isinstance(s_, Simult):
+                out |= {a.var for a in s_.assigns}
+            else:
+                out.add(s_.var)
+        return out
+
+    def walk(stmts, depth):
+        for s_ in stmts:
+            if isinstance(s_, If):
+                branches = s_.branches + ([s_.else_branch] if s_.else_branch else [])
+                if depth >= 1:
+                    cs = set()
+                    for c in s_.conds:
+                        cs |= cond_symbols(c)
+                    if cs & set().union(*[assigned(b) for b in branches]):
+                        return True
+                for b in branches:
+                    if walk(b, depth + 1):
+                        return True
+        return False
+    depth0 = 0 if prog.guard == ("true",) else 1   # a loop guard is folded into an enclosing if
+    return walk(prog.body, depth0)
+
+
+def sig(exc, prog=None):
     msg = re.sub(r"\d+", "#", exc.get("msg", ""))
     m = re.match(r"Can't normalize condition (.*), because (.*)", msg)
     if m:
-        kind = "_old" if "_old" in m.group(1) else "other"
+        kind = "nested-reassign" if (prog is not None and nested_reassign(prog)) else "other"
         msg = f"Can't normalize condition <{kind}>, because {m.group(2)}"
     if exc.get("type") == "KeyError":
         msg = "<variable>"
@@ -258,7 +293,7 @@ def job_accept(item):
         if res["exc"]["type"] == "Timeout":
             out["records"].append({"kind": "inconclusive", "tag": pid, "why": "normalisation timeout"})
         else:
-            out["records"].append({"kind": "violation", "key": sig(res["exc"]), "tag": pid,
+            out["records"].append({"kind": "violation", "key": sig(res["exc"], prog), "tag": pid,
                                    "what": f"program inside the documented class is refused: {res['exc']['type']}: {res['exc']['msg'][:120]} at {res['exc']['where']} (witness {pid})",
                                    "replay": {"text": text, **res["exc"]}})
         return out
@@ -324,7 +359,7 @@ def main():
     checked = paths = muts = accepted = nprog = 0
     for (f, arg, name), (st, val) in zip(work, results):
         if st != "ok":
-            run.inconc(f"{name}: job {st} {str(val)[:300] if val else ''}")
+            run.job_failed(name, st, val)
             continue
         run.add_stats(val["stats"])
         checked += val["checked"]
